@@ -172,7 +172,8 @@ c = {expr}
 doc = {pdoc if 'literal' in cid else "[u1, 0, 'a']"}
 {ASSERT.replace("ok = ok and same('both filter identically', r.filter(doc).result, c.filter(doc).result)", "ok = ok and same('both filter identically', r.filter(doc).result, c.filter(doc).result)" if 'literal' in cid else "ok = ok and same('both validate identically', summarize_test(Rule(('x',), r).test(RDOC)), summarize_test(Rule(('x',), c).test(RDOC)))")}
 """
-        body = body.replace("RDOC", "{'x': u1, 'a': {'k': 1, '': 2}, 'l': [1, u1], 'lo': 0, 'hi': [5], 'lim': {'k': 3}, 'ref': 2, 'm': {'x': 'ab'}}")
+        body = body.replace("RDOC", "{'x': u1, 'a': {'k': 1, '': 2}, 'l': [1, u1], 'lo': 0, 'hi': [5], 'lim': {'k': 3}, 'ref': 2, 'm': {'x': 'ab'}}"
+                            if cid != "path.combined_part" else "{'x': u1, 'a': {'k': 1, 'j': 2}}")
         out.append(mk_case(f"c11.arg.{cid}", params, body, pre=[f"BU({L}, {names})"] + list(more), stubs=["sym_repr"]))
     # nested combinations
     for op1 in ("and", "or", "xor"):
